@@ -353,8 +353,56 @@ pub fn literal_context_texts(depth: usize) -> Vec<String> {
     v
 }
 
+/// Composite operators written with white space between their characters, slid through every
+/// token position modulo 64 behind runs of tokens that touch each other (the parser keeps one
+/// "joint" bit per token in 64-bit words).
+pub fn joint_alignment_texts() -> Vec<String> {
+    let probes = ["a < = 2;", "a + = 2;", "a = a > > 1;", "a & & a;", "a | | a;", "a = = a;", "a ! = a;", "a * * 2;", "def f() - > int { }", "a < < = 1;", "a<=2;", "a>>1;"];
+    let mut v = Vec::new();
+    for tight in ["a[0]=a[0];", "int[8]a;", "a<=a;"] {
+        for r in 0..8usize {
+            for j in 0..66usize {
+                let head = format!("{}{}", tight.repeat(r), "; ".repeat(j));
+                for p in probes {
+                    v.push(format!("{}{}\n", head, p));
+                }
+            }
+        }
+    }
+    v
+}
+
+/// Single-token faults of the statements of constructs outside the model grammar (arrays,
+/// extern, calibration, old-style registers, ...): each token deleted, duplicated, and replaced
+/// by each offender, among them a character the lexer does not know.
+pub fn extra_fault_texts() -> Vec<String> {
+    const OFFENDERS: [&str; 12] = ["§", "(", ")", "{", "}", "[", "]", ";", ",", "=", "3", "x"];
+    let mut v = Vec::new();
+    for t in crate::props::c04::EXTRA_VALID {
+        let toks: Vec<&str> = t.split(' ').collect();
+        for i in 0..toks.len() {
+            let mut del = toks.clone();
+            del.remove(i);
+            v.push(del.join(" "));
+            let mut dup = toks.clone();
+            dup.insert(i, toks[i]);
+            v.push(dup.join(" "));
+            for o in OFFENDERS {
+                if toks[i] != o {
+                    let mut rep = toks.clone();
+                    rep[i] = o;
+                    v.push(rep.join(" "));
+                }
+            }
+        }
+    }
+    v
+}
+
 pub fn text_spaces(tier: Tier, oracle: fn(&str, &mut Ctx)) -> Vec<Box<dyn Space>> {
     let mut v: Vec<Box<dyn Space>> = Vec::new();
+    v.push(TextSpace::list("EXTRA-FAULTS (single-token faults of constructs outside the model grammar)", extra_fault_texts(), 256, oracle));
+    v.push(TextSpace::list("JOINT-ALIGN (split composite operators at every token position modulo 64)", joint_alignment_texts(), 256, oracle));
     v.push(TextSpace::list("LITERAL-CONTEXT (strings and paths where their content is validated)", literal_context_texts(if tier.is_thorough() { 4 } else { 3 }), 512, oracle));
     for a in alphabets() {
         let max_len = if tier.is_thorough() { 6 } else { 5 };
